@@ -6,7 +6,8 @@ import struct
 import numpy as np
 
 IDENT = ["a", "b", "c", "d", "e", "n1", "n2", "x", "y", "z", "node", "arr", "pts", "q", "w"]
-ODD = ["with space", "ünïcode", "数据", "a.b", "..", "data", "dim0", "dim1", "_tmp_a", "L" * 120, "0", "-", "x y z", "é"]
+ODD = ["with space", "ünïcode", "数据", "a.b", "..", "data", "dim0", "dim1", "_tmp_a", "L" * 120, "0", "-", "x y z", "é",
+       "metadatabundle_v1", "old metadatabundle", "xmetadatabundle", "node", "array", "root", "Root"]
 DTYPES = ["?", "i1", "u1", "i2", "u2", "i4", "u4", "i8", "u8", "f2", "f4", "f8", "c8", "c16", "S1", "S5", ">i4", ">f8"]
 CLASSES = ["Node", "Array", "PointList", "PointListArray"]
 
@@ -15,9 +16,15 @@ CLASSES = ["Node", "Array", "PointList", "PointListArray"]
 # names
 # ----------------------------------------------------------------------------
 
+TINY = ["a", "ab", "abc", "b", "ba", "a b", "aa"]
+_POOL = [None]
+
+
 def gen_name(r, used, odd=0.15, avoid_prefix=None):
     for _ in range(50):
-        if r.random() < odd:
+        if _POOL[0] is not None:
+            n = r.choice(_POOL[0])
+        elif r.random() < odd:
             n = r.choice(ODD)
         else:
             n = r.choice(IDENT)
@@ -203,7 +210,7 @@ def gen_payload(r, cls, simple=True):
         used = set()
         nf = r.randrange(1, 3)
         fields = [[gen_name(r, used, odd=0.0), r.choice(["f8", "i4", "f4", "?"])] for _ in range(nf)]
-        shape = [r.choice([1, 2, 3]), r.choice([1, 2])]
+        shape = [r.choice([1, 2, 3, 0]) if r.random() < 0.3 else r.choice([1, 2, 3]), r.choice([1, 2, 2, 0])]
         lens = [r.choice([0, 0, 1, 3]) for _ in range(shape[0] * shape[1])]
         return {"fields": fields, "shape": shape, "lens": lens, "seed": r.randrange(10**6)}
     return {}
@@ -254,20 +261,41 @@ def build_node(rec):
 # trees
 # ----------------------------------------------------------------------------
 
-def gen_tree(r, rootname=None, maxdepth=4, maxkids=4, odd=0.15, md=0.4, classes=CLASSES, budget=None, avoid_prefix=None):
+def gen_tree(r, rootname=None, maxdepth=4, maxkids=4, odd=0.15, md=0.4, classes=CLASSES, budget=None, avoid_prefix=None, tiny=None):
     """recipe of a rooted tree: {"name","cls":"Root","md":[...],"kids":[...]}"""
     budget = budget if budget is not None else [r.choice([1, 3, 6, 10, 16])]
+    # name stress: in one tree out of five all names come from a tiny pool of names that are prefixes of each other,
+    # so that equal and prefix-related names occur at different depths of one path
+    tiny = (r.random() < 0.2) if tiny is None else tiny
+    if tiny:
+        _POOL[0] = TINY
+    try:
+        return _gen_tree(r, rootname, maxdepth, maxkids, odd, md, classes, budget, avoid_prefix)
+    finally:
+        _POOL[0] = None
 
-    def node(depth, used):
+
+def _gen_tree(r, rootname, maxdepth, maxkids, odd, md, classes, budget, avoid_prefix):
+
+    def node(depth, used, anc=()):
         cls = r.choice(classes)
-        rec = {"name": gen_name(r, used, odd=odd, avoid_prefix=avoid_prefix), "cls": cls, "pay": gen_payload(r, cls), "md": [], "kids": []}
+        nm = None
+        if anc and r.random() < 0.12:
+            # the same name again deeper on the same path (a name is only unique among its siblings)
+            cand = r.choice(anc)
+            if cand not in used and not (avoid_prefix and any(cand.startswith(p) for p in avoid_prefix)):
+                nm = cand
+                used.add(cand)
+        if nm is None:
+            nm = gen_name(r, used, odd=odd, avoid_prefix=avoid_prefix)
+        rec = {"name": nm, "cls": cls, "pay": gen_payload(r, cls), "md": [], "kids": []}
         if r.random() < md:
             um = set()
             rec["md"] = [gen_metadata(r, um) for _ in range(r.choice([1, 1, 2, 3]))]
-        rec["kids"] = kids(depth + 1, reserved_names(rec))
+        rec["kids"] = kids(depth + 1, reserved_names(rec), anc + (nm,))
         return rec
 
-    def kids(depth, reserved):
+    def kids(depth, reserved, anc=()):
         out = []
         if depth > maxdepth:
             return out
@@ -277,14 +305,14 @@ def gen_tree(r, rootname=None, maxdepth=4, maxkids=4, odd=0.15, md=0.4, classes=
             if budget[0] <= 0:
                 break
             budget[0] -= 1
-            out.append(node(depth, used))
+            out.append(node(depth, used, anc))
         return out
 
     root = {"name": rootname or ("R" + str(r.randrange(3))), "cls": "Root", "pay": {}, "md": [], "kids": []}
     if r.random() < md:
         um = set()
         root["md"] = [gen_metadata(r, um) for _ in range(r.choice([1, 2, 3]))]
-    root["kids"] = kids(1, {"metadatabundle"})
+    root["kids"] = kids(1, {"metadatabundle"}, (root["name"],) if not (avoid_prefix and any(root["name"].startswith(p) for p in avoid_prefix)) else ())
     return root
 
 
